@@ -2,7 +2,7 @@
    extraction and for vm_compute cross-checks. *)
 From Coq Require Import ZArith List Bool Arith Lia.
 From Coq Require Import QArith.
-From RV Require Import Val Syntax Rho Offline Online Sat IA Pastify Jitter Units Support Lexer Parser Elab Dense DenseSem DenseMerge ExtZ.
+From RV Require Import Val Syntax Rho Offline Online Sat IA Pastify Jitter Units Support Lexer Parser Elab Dense DenseSem DenseMerge Explain ExtZ.
 Import ListNotations.
 
 Definition zformula := @formula ExtZVal.
@@ -64,6 +64,10 @@ Definition run_isect (op : nat) (s1 s2 : list (Z * extz)) : option (list (Z * ex
   isect (match op with
          | O => vmin | 1%nat => vmax
          | 2%nat => a2 ExtZArith Sub | _ => a2 ExtZArith Add end) s1 s2.
+
+(* explain() on a list of assertions: the table of intervals per input variable *)
+Definition run_explain (ps : list zformula) (w : ztrace) (n : nat) : option (list (nat * list (nat * nat))) :=
+  explain ExtZArith pk_std w n ps.
 
 Definition run_hor (p : zformula) : nat := hor p.
 Definition run_bounded_future (p : zformula) : bool := bounded_future p.
